@@ -503,13 +503,15 @@ package url
 //@ func (*parser).percentEncodeRune
 //@   requires p != nil && setOK(tr)
 //@   ensures (tr != nil && r >= 0 && !setHas(tr, r)) ==> result == utf8(r)   [C10]
-//@   ensures (p.opts.encodingOverride == nil && r >= 0 && (tr == nil || setHas(tr, r))) ==> (len(result) == 3 * len(utf8(r))
-//@           && (forall k int :: 0 <= k && k < len(utf8(r)) ==> (result[3 * k] == '%' && result[3 * k + 1] == "0123456789ABCDEF"[utf8(r)[k] / 16]
-//@               && result[3 * k + 2] == "0123456789ABCDEF"[utf8(r)[k] % 16])))   [C10]
+//@   ensures (p.opts.encodingOverride == nil && r >= 0) ==> result == specEncRune(r, tr == nil || setHas(tr, r))   [C10]
 //@   loop 1 invariant 0 <= i && i <= n && n <= 4 && j == 3 * i && len(bytes) == 4 && len(percentEncoded) == 12 && fresh(percentEncoded) && fresh(bytes)
-//@   loop 1 invariant forall k int :: 0 <= k && k < i ==> (percentEncoded[3 * k] == '%' && percentEncoded[3 * k + 1] == "0123456789ABCDEF"[bytes[k] / 16]
-//@               && percentEncoded[3 * k + 2] == "0123456789ABCDEF"[bytes[k] % 16])
-//@   loop 1 invariant (p.opts.encodingOverride == nil) ==> (n == len(utf8(r)) && (forall k int :: 0 <= k && k < n ==> bytes[k] == utf8(r)[k]))
+//@            && off(percentEncoded) == 0 && off(bytes) == 0
+//@   loop 1 invariant i >= 1 ==> (percentEncoded[0] == '%' && percentEncoded[1] == "0123456789ABCDEF"[bytes[0] / 16] && percentEncoded[2] == "0123456789ABCDEF"[bytes[0] % 16])
+//@   loop 1 invariant i >= 2 ==> (percentEncoded[3] == '%' && percentEncoded[4] == "0123456789ABCDEF"[bytes[1] / 16] && percentEncoded[5] == "0123456789ABCDEF"[bytes[1] % 16])
+//@   loop 1 invariant i >= 3 ==> (percentEncoded[6] == '%' && percentEncoded[7] == "0123456789ABCDEF"[bytes[2] / 16] && percentEncoded[8] == "0123456789ABCDEF"[bytes[2] % 16])
+//@   loop 1 invariant i >= 4 ==> (percentEncoded[9] == '%' && percentEncoded[10] == "0123456789ABCDEF"[bytes[3] / 16] && percentEncoded[11] == "0123456789ABCDEF"[bytes[3] % 16])
+//@   loop 1 invariant (p.opts.encodingOverride == nil) ==> (n == len(utf8(r)) && bytes[0] == utf8(r)[0] && (n >= 2 ==> bytes[1] == utf8(r)[1])
+//@            && (n >= 3 ==> bytes[2] == utf8(r)[2]) && (n >= 4 ==> bytes[3] == utf8(r)[3]))
 //@   loop 1 decreases n - i
 
 //@ func (*parser).percentEncodeInvalidRune
@@ -911,7 +913,12 @@ package url
 
 //@ func (*parser).PercentEncodeString
 //@   requires p != nil && setOK(tr)
-//@   loop 1 invariant buffer != nil && fresh(buffer)
+//@   ensures p.opts.encodingOverride == nil ==> result == specEncStr(runesOf(s), runeCount(s), runeCount(s), bsBits(tr.bs), tr.allBelow, tr == nil,
+//@           p.opts.percentEncodeSinglePercentSign)   [C10]
+//@   loop 1 modifies bufv(buffer)
+//@   loop 1 invariant buffer != nil && fresh(buffer) && len(runes) == runeCount(s) && off(runes) == 0 && content(runes) == runesOf(s) && fresh(runes)
+//@   loop 1 invariant p.opts.encodingOverride == nil ==> bufv(buffer) == specEncStr(runesOf(s), $i, runeCount(s), bsBits(tr.bs), tr.allBelow, tr == nil,
+//@           p.opts.percentEncodeSinglePercentSign)
 
 //@ func percentEncodeByte
 //@   requires setOK(tr)
@@ -967,10 +974,12 @@ package url
 //@   ensures arr(u.validationErrors) == old(arr(u.validationErrors)) || fresh(u.validationErrors)
 //@   ensures result1 == nil ==> (specPartsN(input) <= 4 && u.isIPv4)   [C07]
 //@   ensures result1 == nil ==> (forall k int :: 0 <= k && k < specPartsN(input) ==> specNumSyntax(specSplitPart(input, ".", k)))   [C07]
+//@   ensures result1 == nil ==> specIPv4RangeOK(input)   [C07]
+//@   ensures result1 == nil ==> result0 == specIPv4Ser(specIPv4Value(input))   [C07]
 //@   loop 1 modifies u.validationErrors, u.validationErrors[..]
 //@   loop 1 invariant len(numbers) == $i && (numbers == nil || freshL(numbers)) && len(parts) == specPartsN(input) && len(parts) <= 4 && len(parts) >= 1
 //@   loop 1 invariant forall k int :: 0 <= k && k < len(parts) ==> parts[k] == specSplitPart(input, ".", k)
-//@   loop 1 invariant forall k int :: 0 <= k && k < $i ==> (specNumSyntax(parts[k]) && numbers[k] >= 0)
+//@   loop 1 invariant forall k int :: 0 <= k && k < $i ==> (specNumSyntax(parts[k]) && numbers[k] >= 0 && numbers[k] == specNumVal(parts[k]))
 //@   loop 1 invariant arr(u.validationErrors) == old(arr(u.validationErrors)) || fresh(u.validationErrors)
 //@   loop 1 invariant arr(u.validationErrors) == pre(arr(u.validationErrors)) || freshL(u.validationErrors)
 //@   loop 2 modifies u.validationErrors, u.validationErrors[..]
@@ -981,7 +990,12 @@ package url
 //@   loop 3 invariant arr(u.validationErrors) == pre(arr(u.validationErrors)) || freshL(u.validationErrors)
 //@   loop 3 invariant forall k int :: 0 <= k && k < $i ==> numbers[k] <= 255
 //@   loop 4 modifies nothing
-//@   loop 4 invariant 0 <= ipv4 && ipv4 <= 4294967295
+//@   loop 4 invariant 0 <= ipv4 && ipv4 <= 4294967295 && len(numbers) <= 3 && $i <= len(numbers)
+//@   loop 4 invariant forall k int :: 0 <= k && k < len(numbers) ==> (0 <= numbers[k] && numbers[k] <= 255)
+//@   loop 4 invariant 0 <= pre(ipv4) && pre(ipv4) < specPow256(4 - len(numbers))
+//@   loop 4 invariant ($i == 0 ==> ipv4 == pre(ipv4)) && ($i == 1 ==> ipv4 == pre(ipv4) + numbers[0] * 16777216)
+//@            && ($i == 2 ==> ipv4 == pre(ipv4) + numbers[0] * 16777216 + numbers[1] * 65536)
+//@            && ($i == 3 ==> ipv4 == pre(ipv4) + numbers[0] * 16777216 + numbers[1] * 65536 + numbers[2] * 256)
 
 //@ func (*parser).parseIPv6
 //@   requires p != nil && u != nil && cur(input) && !input.eof && input.pointer == -1
